@@ -25,7 +25,7 @@ def validate(ctx, events, table, label):
     return accepted, devs, res
 
 
-DIRECTED = ["cachekeys", "exclude-reload", "nth-cache", "exclude-race", "tail", "reload-race", "reload-same-count"]
+DIRECTED = ["cachekeys", "exclude-reload", "nth-cache", "exclude-race", "tail", "reload-race", "reload-same-count", "casekeys", "narrow-widen"]
 
 
 def directed_kind(sid, race):
@@ -126,7 +126,8 @@ def item_history_part(ctx, n=3):
     list must equal a fresh `fzf --filter` run with the options then in force."""
     fzf = ctx.build_fzf()
     rng = ctx.rng
-    jobs = [make_job(ctx, rng, 900 + i, False, kind=("nth-cache" if i % 3 != 2 else "cachekeys")) for i in range(n)]
+    kinds = ["nth-cache", "casekeys", "narrow-widen", "cachekeys"]
+    jobs = [make_job(ctx, rng, 900 + i, False, kind=kinds[i % len(kinds)]) for i in range(n)]
     events, results = run_jobs(ctx, jobs, fzf, fzf, False, "c05-items")
     return len(jobs), len(events)
 
@@ -160,7 +161,7 @@ def run(ctx, prop="C08"):
     fzf = ctx.build_fzf(race=race)
     fzf_oracle = ctx.build_fzf() if race else fzf
     rng = ctx.rng
-    nsess = ctx.pick(21, 600) if not race else ctx.pick(10, 400)
+    nsess = ctx.pick(27, 600) if not race else ctx.pick(10, 400)
     jobs = [make_job(ctx, rng, sid, race) for sid in range(nsess)]
     if ctx.replay:
         rp = json.load(open(ctx.replay))["case"]
